@@ -111,16 +111,22 @@ Errors(prog) ==
    reference verdict is computed on the control-flow paths: block-local variables are renamed apart,
    every choice of one block per branch gives a flat rule, Errors of each such flat rule are mapped
    back to the statement they belong to; "used once" counts occurrences over the whole rule. *)
-IsBranch(it) == it.k = "branch"
 VarsOfTerm(t) == {u \in Sub(t) : u.op = "var"}
 VarsOfAtom(a) ==
   CASE a.t = "pred" -> UNION {VarsOfTerm(a.args[i]) : i \in DOMAIN a.args}
     [] a.t = "eq"   -> VarsOfTerm(a.l) \cup VarsOfTerm(a.r)
     [] a.t = "def"  -> VarsOfTerm(a.tm) \cup (IF a.v = NoVar THEN {} ELSE {a.v})
     [] a.t = "vt"   -> {a.v}
+\* [k |-> "match", tm |-> term, cs |-> sequence of [pat |-> constructor application, blk |-> block]] is the
+\* branch whose b-th block is `if tm = pat_b;` followed by blk_b; the variables of tm belong to the
+\* enclosing scope (scopes_stmt_match: the cases are entered in the exit scope of the term)
+IsBranch(it) == it.k \in {"branch", "match"}
+BlocksOf(it) == IF it.k = "branch" THEN it.bs
+                ELSE [b \in DOMAIN it.cs |-> <<[k |-> "if", a |-> [t |-> "eq", l |-> it.tm, r |-> it.cs[b].pat]]>> \o it.cs[b].blk]
+OwnVars(it) == IF it.k = "match" THEN VarsOfTerm(it.tm) ELSE IF it.k = "branch" THEN {} ELSE VarsOfAtom(it.a)
 VarsOfStmts(ss) == UNION {VarsOfAtom(ss[i].a) : i \in DOMAIN ss}
 \* variables in scope at item i: those of the simple statements before it
-ScopeAt(P, i) == UNION {IF IsBranch(P[j]) THEN {} ELSE VarsOfAtom(P[j].a) : j \in 1..(i - 1)}
+ScopeAt(P, i) == UNION {OwnVars(P[j]) : j \in 1..(i - 1)} \cup (IF P[i].k = "match" THEN VarsOfTerm(P[i].tm) ELSE {})
 RECURSIVE RenT(_, _, _)
 RenT(t, L, sfx) == CASE t.op = "var" -> IF t \in L THEN V(t.n \o sfx) ELSE t
                      [] t.op = "app" -> [t EXCEPT !.args = [i \in DOMAIN t.args |-> RenT(t.args[i], L, sfx)]]
@@ -131,28 +137,29 @@ RenA(a, L, sfx) ==
     [] a.t = "def"  -> [a EXCEPT !.tm = RenT(a.tm, L, sfx), !.v = IF a.v = NoVar THEN NoVar ELSE RenT(a.v, L, sfx)]
     [] a.t = "vt"   -> [a EXCEPT !.v = RenT(a.v, L, sfx)]
 Block(P, i, b) ==  \* block b of branch item i with its local variables renamed apart
-  LET ss == P[i].bs[b]
+  LET ss == BlocksOf(P[i])[b]
       L == VarsOfStmts(ss) \ ScopeAt(P, i)
       sfx == "@" \o ToString(i) \o "_" \o ToString(b)
   IN [j \in DOMAIN ss |-> [k |-> ss[j].k, a |-> RenA(ss[j].a, L, sfx)]]
+Off(it) == IF it.k = "match" THEN 1 ELSE 0    \* origin <<i, b, 0>> is the case line `pat => {`
 Branches(P) == {i \in DOMAIN P : IsBranch(P[i])}
-Choices(P) == {c \in [Branches(P) -> 1..3] : \A i \in Branches(P) : c[i] \in DOMAIN P[i].bs}
+Choices(P) == {c \in [Branches(P) -> 1..3] : \A i \in Branches(P) : c[i] \in DOMAIN BlocksOf(P[i])}
 RECURSIVE PathFrom(_, _, _)
 \* <<flat statements, origins>>; an origin is <<item, block, index in block>> (block = 0 for a simple item)
 PathFrom(P, c, i) ==
   IF i > Len(P) THEN <<<<>>, <<>>>>
   ELSE LET rest == PathFrom(P, c, i + 1) IN
        IF IsBranch(P[i])
-       THEN LET blk == Block(P, i, c[i]) IN <<blk \o rest[1], [j \in DOMAIN blk |-> <<i, c[i], j>>] \o rest[2]>>
+       THEN LET blk == Block(P, i, c[i]) IN <<blk \o rest[1], [j \in DOMAIN blk |-> <<i, c[i], j - Off(P[i])>>] \o rest[2]>>
        ELSE <<<<P[i]>> \o rest[1], <<<<i, 0, 0>>>> \o rest[2]>>
 RECURSIVE AllFrom(_, _)
 AllFrom(P, i) ==
   IF i > Len(P) THEN <<<<>>, <<>>>>
   ELSE LET rest == AllFrom(P, i + 1) IN
        IF IsBranch(P[i])
-       THEN LET RECURSIVE Bs(_) Bs(b) == IF b > Len(P[i].bs) THEN <<<<>>, <<>>>>
+       THEN LET RECURSIVE Bs(_) Bs(b) == IF b > Len(BlocksOf(P[i])) THEN <<<<>>, <<>>>>
                                         ELSE LET blk == Block(P, i, b) r == Bs(b + 1)
-                                             IN <<blk \o r[1], [j \in DOMAIN blk |-> <<i, b, j>>] \o r[2]>>
+                                             IN <<blk \o r[1], [j \in DOMAIN blk |-> <<i, b, j - Off(P[i])>>] \o r[2]>>
                 r0 == Bs(1)
             IN <<r0[1] \o rest[1], r0[2] \o rest[2]>>
        ELSE <<<<P[i]>> \o rest[1], <<<<i, 0, 0>>>> \o rest[2]>>
@@ -165,7 +172,12 @@ ErrorsS(P) ==
                          { <<e[1], pf[2][e[2]]>> : e \in {e \in Errors(pf[1]) : e[1] \in PathClasses} } : c \in Choices(P) }
       af == AllFrom(P, 1)
       whole == { <<e[1], af[2][e[2]]>> : e \in {e \in Errors(af[1]) : e[1] \notin PathClasses} }
-  IN perPath \cup whole
+      \* match statements: every constructor of the enum needs a case; pattern variables must be fresh
+      matchErr == UNION { IF P[i].k # "match" THEN {} ELSE
+                          (IF {P[i].cs[b].pat.f : b \in DOMAIN P[i].cs} = Ctors THEN {} ELSE {<<"MatchNotExhaustive", <<i, 0, 0>>>>})
+                          \cup { <<"MatchVarNotFresh", <<i, b, 0>>>> : b \in {b \in DOMAIN P[i].cs : VarsOfTerm(P[i].cs[b].pat) \cap ScopeAt(P, i) # {}} }
+                        : i \in DOMAIN P }
+  IN perPath \cup whole \cup matchErr
 
 (* ---------------- program space of the probe ---------------- *)
 x == V("x")  y == V("y")
